@@ -93,6 +93,14 @@ func jsRender(v tlaval.Value) any {
 		return map[string]any{k: a}
 	case "if":
 		return map[string]any{"if": sub(0), "then": sub(1), "else": sub(2)}
+	case "obj":
+		m := map[string]any{}
+		for i := range subs {
+			for kk, vv := range sub(i).(map[string]any) {
+				m[kk] = vv
+			}
+		}
+		return m
 	case "ref":
 		return map[string]any{"$defs": map[string]any{"d": sub(0)}, "$ref": "#/$defs/d"}
 	}
